@@ -361,8 +361,18 @@ func (e *Engine) localMods(fn *ssa.Function) (map[string]bool, []*ssa.Function, 
 				if !rootIsLocalAlloc(x.Addr, 0) {
 					storeHeaps(x.Addr, mods)
 				}
+			case *ssa.MapUpdate:
+				if !rootIsLocalAlloc(x.Map, 0) {
+					mods["MS."+typeName(x.Map.Type())] = true
+				}
 			case ssa.CallInstruction:
 				c := x.Common()
+				if bi, isB := c.Value.(*ssa.Builtin); isB && bi.Name() == "delete" && len(c.Args) > 0 {
+					if !rootIsLocalAlloc(c.Args[0], 0) {
+						mods["MS."+typeName(c.Args[0].Type())] = true
+					}
+					continue
+				}
 				if c.IsInvoke() {
 					if con := e.ifaceContract(c); con != nil && con.HasMod {
 						// effects confined by the interface contract (every implementation is checked against it)
@@ -614,7 +624,7 @@ func rootIsLocal(v ssa.Value, seen map[ssa.Value]bool) bool {
 	seen[v] = true
 	depth := 0
 	switch x := v.(type) {
-	case *ssa.Alloc, *ssa.MakeSlice:
+	case *ssa.Alloc, *ssa.MakeSlice, *ssa.MakeMap:
 		return true
 	case *ssa.Const:
 		return x.Value == nil // nil slice: append allocates
